@@ -25,7 +25,8 @@ CONSTANTS Scope,     \* "small" | "full"
                           \* parameter (today they do not: non-primitive entries are dropped for such requests - a named deviation;
                           \* the harness reads it off inspect.signature, and if a client offers it, it must work like any other)
 
-Fields == {"name", "count", "flag", "tags", "labels", "inner.name", "inner.tags", "kind", "class", "blob", "vals", "request_id", "opt_request_id"}
+Fields == {"name", "count", "flag", "tags", "labels", "inner.name", "inner.tags", "kind", "class", "blob", "vals", "request_id", "opt_request_id",
+           "extra"}      \* a whole singular MESSAGE field as a flattened parameter: variant 1 = the EMPTY message (present all the same)
 PresenceFields == {"opt_request_id"}        \* explicit presence (proto3 optional)
 NoVal == [f \in Fields |-> 0]
 
@@ -38,7 +39,7 @@ Methods ==
   { [name |-> "GetThing",    cs |-> FALSE, ss |-> FALSE, void |-> FALSE, dep |-> FALSE, flat |-> <<"name", "count">>, auto |-> {}],
     [name |-> "DeleteThing", cs |-> FALSE, ss |-> FALSE, void |-> TRUE,  dep |-> FALSE, flat |-> <<"name">>, auto |-> {}],
     [name |-> "UpdateThing", cs |-> FALSE, ss |-> FALSE, void |-> FALSE, dep |-> FALSE,
-       flat |-> <<"inner.name", "tags", "labels", "kind", "class", "flag", "opt_request_id">>, auto |-> {}],
+       flat |-> <<"inner.name", "tags", "labels", "kind", "class", "flag", "opt_request_id", "extra">>, auto |-> {}],
     [name |-> "CreateThing", cs |-> FALSE, ss |-> FALSE, void |-> FALSE, dep |-> FALSE, flat |-> <<"name", "request_id">>,   \* an auto-populated field may also be flattened
        auto |-> {"request_id", "opt_request_id"}],
     \* overlapping signatures (the second omits a field of the first), and a repeated google.protobuf.Value field
